@@ -139,13 +139,15 @@ class Unsupported(Part):
             raise Violation("unsupported.dump-wrong-exception", exc=e) from None
         else:
             raise Violation("unsupported.dump-accepted", f"leaf {case[1]}", site=_leaf_class(case[1]))
-        labels = ["leaf:" + case[1], "pos:" + (case[0][-1] if case[0] else "top")]
+        labels = ["leaf:" + _leaf_class(case[1]), "pos:" + (case[0][-1] if case[0] else "top")]
         if case[1].startswith("impostor"):
             labels.append("impostor")
         return dict(labels=labels, nontrivial=depth >= 1)
 
 
 def _leaf_class(name):
+    if name.startswith("surrogate:"):
+        return "surrogate"
     return "impostor" if name.startswith("impostor") else name
 
 
@@ -311,7 +313,7 @@ class ChannelSend(Part):
                 self._recycle()
                 raise Violation("channel.kwargs-bytes-before-dumperror",
                                 f"frames {[(c, i, len(p)) for c, i, p in frames]} torso={len(wire) - used}")
-        return dict(labels=["via:channel-unsupported", "leaf:" + x[1]], nontrivial=depth >= 1)
+        return dict(labels=["via:channel-unsupported", "leaf:" + _leaf_class(x[1])], nontrivial=depth >= 1)
 
 
 PARTS = [RoundTrip(), Unsupported(), ChannelSend()]
